@@ -119,9 +119,15 @@ def runFlat (fj : Json) : Except String Json := do
     out := out.push (skelJson (Flatland.C10.Flat.skeleton e))
   return obj [("skeletons", Json.arr out)]
 
+/-- every trace carries `fields_nodup`: does the declaration the case states name every field once? -/
+def withNodup (s : Schema) (j : Json) : Json :=
+  j.setObjVal! "fields_nodup" (Json.bool (Flatland.C10.fieldsNodupB s))
+
 def run (j : Json) : Except String Json := do
   if let .ok fj := fld j "flat" then return ← runFlat fj
-  if let .ok (Json.str "date") := fld (← fld j "schema") "k" then return ← runCompound j
-  runCase (← parseCase j) view
+  if let .ok (Json.str "date") := fld (← fld j "schema") "k" then
+    return withNodup (← parseCompoundClass (← fld j "schema")) (← runCompound j)
+  let c ← parseCase j
+  return withNodup c.schema (← runCase c view)
 
 end Flatland.Run.C10
